@@ -496,8 +496,9 @@ class ITerm2Image(GraphicsImage, metaclass=ITerm2ImageMeta):
     def is_supported(cls):
         if cls._supported is None:
             cls._supported = False
-            # May have been set by an earlier (non-definite) determination
-            cls._TERM = cls._TERM_VERSION = ""
+            # Anything set by an earlier (non-definite) determination is replaced, at
+            # once (renders in other threads read these)
+            term = term_version = ""
 
             name, version = get_terminal_name_version()
             if name in {"iterm2", "konsole", "wezterm"}:
@@ -507,10 +508,12 @@ class ITerm2Image(GraphicsImage, metaclass=ITerm2ImageMeta):
                         (*map(int, version.split(".")), 0, 0)[:3] >= (22, 4, 0)
                     ):
                         cls._supported = True
-                        cls._TERM, cls._TERM_VERSION = name, version
+                        term, term_version = name, version
                 # version string not "understood" or not available
                 except (ValueError, AttributeError):
                     pass
+
+            cls._TERM, cls._TERM_VERSION = term, term_version
 
             # A status determined while queries are disabled is not definite: the
             # terminal's name/version may have been taken from the environment.
